@@ -6,6 +6,7 @@ mod c01;
 mod c02;
 mod c03;
 mod c08;
+mod c09;
 mod c10;
 mod c18;
 mod c20;
@@ -75,6 +76,7 @@ fn main() {
     "c08" => c08::run_all(cases),
     "c18" => run_parallel(cases, c18::run_case, 8),
     "c13" => cases.iter().map(c13::run_case).collect(),
+    "c09" => run_parallel(cases, c09::run_case, 16),
     "c14" => run_parallel(cases, c14::run_case, 8),
     "c14seq" => cases.iter().map(c14::run_case).collect(),
     "c20" => c20::run_all(cases),
